@@ -127,14 +127,39 @@ def run(ctx):
     ctx.rule("R14.4", "parser members / static objects written during parse are reset at the start of parse")
 
     parse = one(ctx, "R14.3", NS + "parser::parse", pred=lambda f: f.id == PARSE_VEC)
-    prep_opts = one(ctx, "R14.3", NS + "parser::prepare_options")
-    validate = one(ctx, "R14.3", NS + "parser::validate_options")
-    if not (parse and prep_opts and validate):
+    if not parse:
         return
+    # the reset pass / the resolution pass of parse(): the elements whose calls reach every K::prepare() resp. K::check()
+    # (today the helpers prepare_options() / validate_options(); the same passes written out inside parse() count as well)
+    prep_ids = {f.id for k in KINDS for f in prog.find(NS + k + "::prepare")}
+    check_ids = {f.id for k in KINDS for f in prog.find(NS + k + "::check")}
+    _reach_memo = {}
+
+    def call_reaches(n, goal):
+        tg = tuple(sorted(cg.targets_of(n)))
+        if not tg:
+            return False
+        r = _reach_memo.get(tg)
+        if r is None:
+            r = cg.reachable(list(tg))
+            _reach_memo[tg] = r
+        return bool(goal) and goal <= r
+
+    is_prep = lambda e: any(call_reaches(n, prep_ids) for n in elem_calls(e))
+    is_val = lambda e: any(call_reaches(n, check_ids) for n in elem_calls(e))
+    prep_roots = set()
+    for _, _, e in cfg.find_elems(parse, is_prep):
+        for n in elem_calls(e):
+            if call_reaches(n, prep_ids):
+                prep_roots |= set(cg.targets_of(n))
+    if not ctx.anchor("R14.3", "reset pass in parse()", bool(prep_roots)) or not ctx.anchor("R14.3", "resolution pass in parse()", bool(cfg.find_elems(parse, is_val))):
+        return
+    prep_fns = [prog.fn(t) for t in sorted(prep_roots) if prog.fn(t) is not None]
+    prep_opts = prep_fns[0]
 
     # ---- R14.1: write sets
-    reach = cg.reachable([parse.id], stop={prep_opts.id})
-    reach.discard(prep_opts.id)
+    reach = cg.reachable([parse.id], stop=set(prep_roots))
+    reach -= set(prep_roots)
     kind_fields = {}
     for k in KINDS:
         if not ctx.anchor("R14.1", NS + k, prog.cls(NS + k) is not None):
@@ -192,9 +217,7 @@ def run(ctx):
     def calls(qual):
         return lambda e: any(n.get("name") == qual for n in elem_calls(e))
 
-    is_prep = calls(NS + "parser::prepare_options")
     is_cons = calls(NS + "parser::check_parser_consistency")
-    is_val = calls(NS + "parser::validate_options")
     preps = cfg.find_elems(parse, is_prep)
     ctx.need("R14.3", "prepare_options() call in parse", len(preps), 1)
     if preps:
@@ -222,14 +245,15 @@ def run(ctx):
         ctx.check(ok, "R14.3", parse, "consistency-before-prepare",
                   "prepare_options() can run before check_parser_consistency()", parse)
     # all kinds visited
-    preach = cg.reachable([prep_opts.id])
+    preach = cg.reachable(sorted(prep_roots))
     for k in KINDS:
         fs = prog.find(NS + k + "::prepare")
         ctx.check(bool(fs) and fs[0].id in preach, "R14.3", prep_opts, "visits:" + k,
                   "prepare_options() does not reach %s::prepare()" % k, prep_opts)
 
     # ... unconditionally: in every instantiation of the visiting lambda the call of prepare() happens on all paths
-    vis = [g for g in prog.fns.values() if g.kind == "lambda" and g.has_cfg and g.id.startswith(prep_opts.id + "::") and g.flags.get("instantiation")]
+    vis = [g for g in prog.fns.values() if g.kind == "lambda" and g.has_cfg and g.flags.get("instantiation") and g.id in preach
+           and any(short(n.get("name") or "") == "prepare" for _, _, e in g.roots() for n in elem_calls(e))]
     ctx.need("R14.3", "instantiations of the visiting lambda in prepare_options()", len(vis), 3)
     for g in vis:
         okp, path = cfg.must_happen_before_exit(g, lambda e: any(short(n.get("name") or "") == "prepare" for n in elem_calls(e)))
